@@ -421,6 +421,7 @@ func run(c *runner.Ctx) {
 		}
 	}
 	recursive(c)
+	wideStructs(c)
 	// the caller chose another clause separator: every clause ends with it, none trails
 	for _, sp := range []string{"\t", " ## ", "§§"} {
 		altSep = sp
@@ -472,6 +473,84 @@ type Tree struct {
 	Children []*Tree `valid:"exist"`
 	Next     *Tree   `valid:"exist"`
 	Memo     string
+}
+
+// wideStructs: every field's rules are evaluated whatever the field's index (63..130 fields, rules on all of them,
+// violations at every seventh index plus the last three).
+func wideStructs(c *runner.Ctx) {
+	c.Space("wide-structs")
+	for _, n := range []int{63, 64, 65, 66, 72, 130} {
+		for variant := 0; variant < 3; variant++ {
+			if !c.Take() {
+				continue
+			}
+			var sf []reflect.StructField
+			for i := 0; i < n; i++ {
+				tag := fmt.Sprintf(`valid:"required|need-%d,to=2~3|size-%d"`, i, i)
+				if variant == 1 && i%2 == 0 {
+					tag = "" // untagged fields in between
+				}
+				sf = append(sf, reflect.StructField{Name: fmt.Sprintf("F%03d", i), Type: reflect.TypeOf(""), Tag: reflect.StructTag(tag)})
+			}
+			st := reflect.StructOf(sf)
+			p := reflect.New(st)
+			for i := 0; i < n; i++ {
+				switch {
+				case i%7 == 3 || i >= n-3:
+					p.Elem().Field(i).SetString("toolong")
+				case i%7 == 5:
+					// empty: required
+				default:
+					p.Elem().Field(i).SetString("ok")
+				}
+			}
+			var err error
+			o := walk.Opts{}
+			pan, msg, site := runner.Guard(func() {
+				if variant == 2 {
+					o.Unscoped = map[string]string{"F001": "eq=9|call-1"}
+					err = valid.Struct(p.Interface(), valid.RM{"F001": "eq=9|call-1"})
+				} else {
+					err = valid.Struct(p.Interface())
+				}
+			})
+			exp := walk.Struct(p.Interface(), o)
+			c.Done(true, 1)
+			det := func() map[string]interface{} {
+				return map[string]interface{}{"fields": n, "variant": []string{"all fields tagged", "every second field tagged", "all tagged + a per-call rule for F001"}[variant]}
+			}
+			if pan {
+				d := det()
+				d["panic"] = msg
+				c.Violation("panic@"+site, d)
+				continue
+			}
+			got := ""
+			if err != nil {
+				got = err.Error()
+			}
+			if a, b := explains(got), explains(exp.Error()); a != b {
+				d := det()
+				d["got_explanations"], d["want_explanations"] = a, b
+				c.Violation("wide-struct/clauses-differ", d)
+			} else {
+				c.Outcome("wide-ok")
+			}
+		}
+	}
+}
+
+// explains keeps the explanation parts of an error in order (the name of a wide unnamed struct type is itself long
+// and full of separators).
+func explains(e string) string {
+	var out []string
+	for _, p := range strings.Split(e, "explain: ")[1:] {
+		if k := strings.Index(p, ";"); k >= 0 {
+			p = p[:k]
+		}
+		out = append(out, p)
+	}
+	return strings.Join(out, "|")
 }
 
 func recursive(c *runner.Ctx) {
